@@ -376,7 +376,42 @@ def one_tree(ctx, mon, cls, boxes, queries):
             mon.depth_query = 0
             ctx.violation("exception in query", {"fn": "intersection", "boxes": boxes, "query": list(query),
                                                  "exception": repr(exc)})
+    if boxes and len(boxes) <= 300 and ctx.rng.random() < 0.2:
+        copied_index(ctx, mon, cls, index, boxes, queries)
     mon.registry.pop(id(index), None)
+
+
+def copied_index(ctx, mon, cls, index, boxes, queries):
+    """A copy of an index (copy.copy / copy.deepcopy / pickle round trip) is an index of the same collection:
+    whatever it ANSWERS is judged against brute force.  That an index can be copied at all is not part of the
+    statement - a copy operation that raises is counted, not judged."""
+    import copy
+    import pickle
+    how = ctx.rng.choice(("copy.copy", "copy.deepcopy", "pickle round trip"))
+    try:
+        if how == "copy.copy":
+            dup = copy.copy(index)
+        elif how == "copy.deepcopy":
+            dup = copy.deepcopy(index)
+        else:
+            dup = pickle.loads(pickle.dumps(index, ctx.rng.choice((2, pickle.HIGHEST_PROTOCOL))))
+    except Exception as exc:
+        mon.depth_init = mon.depth_query = 0
+        ctx.count("observed:%s of an index raises %s (copyability is outside the statement)" % (how, type(exc).__name__))
+        return
+    mon.depth_init = mon.depth_query = 0
+    mon.registry[id(dup)] = mon.registry.get(id(index), list(boxes))
+    for qcls, query in queries:
+        ctx.case([cls, "history: copy of an index queried (%s)" % how, "history: copy of an index queried"],
+                 (tuple(boxes), query, how), nontrivial=len(boxes) >= 2)
+        try:
+            dup.intersection(query)
+            index.intersection(query)           # and the original is unaffected by the copy having been made / used
+        except Exception as exc:
+            mon.depth_query = 0
+            ctx.violation("exception in query", {"fn": "intersection", "boxes": boxes, "query": list(query),
+                                                 "copy": how, "exception": repr(exc)})
+    mon.registry.pop(id(dup), None)
 
 
 def marathon(ctx, mon, rng):
@@ -451,6 +486,7 @@ def run(ctx):
         two_live_indexes(ctx, mon, rng)
     ctx.need("history: two live indexes queried alternately", 3000)
     ctx.need("history: same query again after the caller edited the returned set", 3000)
+    ctx.need("history: copy of an index queried", 500)
     n = ctx.budget(9_000, 150_000)
     for i in range(n):
         if not ctx.alive():
